@@ -16,6 +16,8 @@ pub const WHOOK: &str = "id: whook\nsetup:\n  - uses: acts.core.msg\n    on: ste
 pub const WOUT: &str = "id: wout\ninputs:\n  x: 0\noutputs:\n  x:\n  y:\nsteps:\n  - id: s1\n    acts:\n      - uses: acts.core.irq\n        key: a1\n        outputs:\n          y:\n      - uses: acts.transform.set\n        params:\n          x: 7\n      - uses: acts.core.irq\n        key: a2\n  - id: s2\n    if: y > 0\n    acts:\n      - uses: acts.core.irq\n        key: a3\n";
 
 /// one client action writes variables of two enclosing tasks; later acts and the outputs read them
+/// env declared in the model and changed by a script, read again after each interrupt
+pub const WE3: &str = "id: we3\nenv:\n  e1: 5\nsteps:\n  - id: s1\n    acts:\n      - uses: acts.transform.code\n        params: \"$env.e2 = 7; $env.e1 = 6;\"\n      - uses: acts.core.irq\n        key: a1\n  - id: s2\n    acts:\n      - uses: acts.core.msg\n        key: m1\n        params:\n          v: '{{ [$env.e1, $env.e2] }}'\n      - uses: acts.core.irq\n        key: a2\n  - id: s3\n    acts:\n      - uses: acts.core.msg\n        key: m2\n        params:\n          v: '{{ [$env.e1, $env.e2] }}'\n";
 pub const WD3: &str = "id: wd3\ninputs:\n  a: 0\noutputs:\n  a:\n  b:\nsteps:\n  - id: s1\n    inputs:\n      b: 0\n    acts:\n      - uses: acts.core.irq\n        key: a1\n      - uses: acts.core.irq\n        key: a2\n        inputs:\n          seen_a: \"{{ a }}\"\n          seen_b: \"{{ b }}\"\n  - id: s2\n    acts:\n      - uses: acts.core.irq\n        key: a3\n        inputs:\n          seen_a: \"{{ a }}\"\n";
 
 #[derive(Clone, Debug)]
@@ -25,6 +27,9 @@ pub struct Scn {
     pub sqlite: bool,
     /// (position in the client script, action kind): the action at that position is not `complete`
     pub variant: Option<(usize, &'static str)>,
+    /// after the eviction another process runs to its end on the same engine, so that the evicted
+    /// one comes back through the cache refill (`restore`), not through the client's action
+    pub via_restore: bool,
 }
 
 pub fn scenarios(tier: Tier) -> Vec<Scn> {
@@ -44,6 +49,7 @@ pub fn scenarios(tier: Tier) -> Vec<Scn> {
         ("whook", WHOOK),
         ("wout", WOUT),
         ("wd3", WD3),
+        ("we3", WE3),
     ];
     for sqlite in [false, true] {
         for (name, yml) in &models {
@@ -68,7 +74,17 @@ pub fn scenarios(tier: Tier) -> Vec<Scn> {
                     yml,
                     sqlite,
                     variant: var,
+                    via_restore: false,
                 });
+                if !sqlite && (var.is_none() || matches!(var, Some((_, "error")))) {
+                    v.push(Scn {
+                        id: format!("reload/memory-restore/{}/{}", name, var.map(|(p, k)| format!("{k}@{p}")).unwrap_or("complete-all".into())),
+                        yml,
+                        sqlite,
+                        variant: var,
+                        via_restore: true,
+                    });
+                }
             }
         }
     }
@@ -146,6 +162,10 @@ pub fn run(sc: &Scn, interrupt_at: &[usize]) -> Obs {
     };
     let mut sess = Session::new(&cfg);
     sess.deploy(sc.yml);
+    if sc.via_restore {
+        // the bystander: starts and ends without a client
+        sess.deploy("id: wz\nsteps:\n  - id: z1\n");
+    }
     let _ = sess.start(&mid_of(sc.yml), &vars_of(&json!({"pid": "p1", "y": 1})));
     let mut obs = Obs::default();
     let mut op = 0usize;
@@ -157,8 +177,8 @@ pub fn run(sc: &Scn, interrupt_at: &[usize]) -> Obs {
         let mut batch: Vec<String> = vec![];
         for t in &trace[mark..] {
             match t {
-                Tr::Emit { channel: "message", msg } => batch.push(canon_msg(msg)),
-                Tr::Emit { channel, msg } if *channel == "complete" || *channel == "error" => {
+                Tr::Emit { channel: "message", msg } if msg.pid == "p1" => batch.push(canon_msg(msg)),
+                Tr::Emit { channel, msg } if (*channel == "complete" || *channel == "error") && msg.pid == "p1" => {
                     obs.terminal.push(erase_ids(&format!("{channel} {:?} out={} in={}", msg.state, serde_json::to_value(&msg.outputs).unwrap_or_default(), {
                         let mut i = serde_json::to_value(&msg.inputs).unwrap_or_default();
                         if let Some(o) = i.as_object_mut() {
@@ -185,6 +205,10 @@ pub fn run(sc: &Scn, interrupt_at: &[usize]) -> Obs {
                 sess.restart();
             } else {
                 sess.engine.verif().uncache("p1");
+                if sc.via_restore {
+                    let _ = sess.start("wz", &vars_of(&json!({"pid": format!("z{qidx}")})));
+                    sess.drain();
+                }
             }
         }
         // the client answers the open interrupt with the smallest key
@@ -209,9 +233,12 @@ pub fn run(sc: &Scn, interrupt_at: &[usize]) -> Obs {
     let mut last: BTreeMap<String, (String, String, String)> = BTreeMap::new();
     for t in &trace {
         if let Tr::TaskEvent {
-            tid, nid, kind, state, key, ..
+            pid, tid, nid, kind, state, key, ..
         } = t
         {
+            if pid != "p1" {
+                continue;
+            }
             last.insert(tid.clone(), (kind.clone(), if kind == "act" { key.clone() } else { nid.clone() }, state.clone()));
         }
     }
@@ -268,7 +295,7 @@ impl Check for C12 {
         CheckInfo {
             id: "C12",
             level: "model_checking",
-            rule: "14 workflows (sequential, branches, catches, parallel / sequence / block generators, parked branches, env, propagating variables, hooks + catch + timeout, declared outputs with a conditional step, one action writing variables of two enclosing tasks) x client scripts (complete everything; one action replaced by error / skip / submit at each position) x both stores; for every quiescent point q of the uninterrupted run A (every pair q1 < q2 in thorough) a run B repeats A's choices up to q, evicts the process from the cache (in-memory store) or starts a new engine on the same SQLite file, and continues with the same client operations; B's messages after q (ids, times erased), client results, terminal event and final task outcomes must equal A's".into(),
+            rule: "14 workflows (sequential, branches, catches, parallel / sequence / block generators, parked branches, env, propagating variables, hooks + catch + timeout, declared outputs with a conditional step, one action writing variables of two enclosing tasks) x client scripts (complete everything; one action replaced by error / skip / submit at each position) x both stores; for every quiescent point q of the uninterrupted run A (every pair q1 < q2 in thorough) a run B repeats A's choices up to q, evicts the process from the cache (in-memory store; in a second variant a bystander process then runs to its end, so that the evicted process comes back through the cache refill instead of the client's action) or starts a new engine on the same SQLite file, and continues with the same client operations; B's messages after q (ids, times erased), client results, terminal event and final task outcomes must equal A's".into(),
             assumptions: vec!["FIFO order of queued engine work in both runs (the differential needs one schedule; other schedules are the subject of C01-C08)".into()],
             budget_s: tier.pick(50, 900),
             exhaustive_when_uncapped: true,
